@@ -75,6 +75,11 @@ C = {
    "concurrent login attempts from several simulated hosts over real SSH handshakes; outcomes are compared with a decision table written from the statement; granted health "
    "sessions are fed arbitrary commands and must never receive file content.",
    "deterministic simulation: multi-party SSH handshakes on the simulated network with simulated DNS, decision-table oracle"),
+ "C08": ("exploration", "5 C08",
+   "Seeded generation of rule lists, directory trees with symlinks of every kind and requests, executed as concurrent real sessions of several users against one dserver; an independent "
+   "evaluator (own symlink walker, regular-file test, last match wins, default deny) decides per request which files may and must be served; any other file's content in the session is a violation. "
+   "Configuration-dominated: the simulator contributes concurrent users and real sessions.",
+   "deterministic simulation executing generated configurations x layouts x requests as concurrent sessions; independent permission evaluator"),
 }
 
 checks = []
